@@ -657,7 +657,7 @@ class Interp(Ops, Builtins, DynOps):
         gens = e.generators
         cf = Frame(fr.module, fr.fi, parent=fr)
         first = self.ev(gens[0].iter, fr)
-        if first.kind == "slist" or (first.kind == "ext" and first.dotted == "range#sym"):
+        if first.kind == "slist" or (first.kind == "opaque" and first.tag == "symiter"):
             if what != "list" or len(gens) != 1:
                 raise EngineError(f"comprehension over SMT list: unsupported shape (line {e.lineno})")
             return self.slist_comprehension(e, first, cf)
@@ -965,8 +965,11 @@ class Interp(Ops, Builtins, DynOps):
         """evaluate an assignment's right-hand side; an empty list literal bound to a name the contract
         declares as SMT list is allocated in the SMT heap"""
         t = self.declared_type(target, fr)
-        if t is not None and isinstance(t, TSList) and isinstance(value, ast.List) and not value.elts:
-            return self.new_slist(t.elem, "newlist")
+        if t is not None and isinstance(t, TSList) and isinstance(value, ast.List) and not any(isinstance(x, ast.Starred) for x in value.elts):
+            lst = self.new_slist(t.elem, "newlist")
+            for x in value.elts:
+                self.slist_append(lst, self.ev(x, fr), value)
+            return lst
         return self.ev(value, fr)
 
     def declared_type(self, target, fr):
@@ -1467,6 +1470,13 @@ class Interp(Ops, Builtins, DynOps):
             if bf is not None and nm in bf.vars:
                 v = bf.vars[nm]
                 return v.inner if v.kind == "maybe" else v
+            c0 = self.contracts.get(self.verifying)
+            t0 = c0.locals.get(nm) if c0 is not None else None
+            if len(e.args) == 1 and isinstance(t0, TSList):
+                # unbound list local (early return): reads as an empty list of its declared type
+                r = self.ctx.fresh("empty_" + nm, I)
+                self.ctx.assume(z3.And(r > 0, self.ctx.slen(r) == 0))
+                return VSList(r, t0.elem)
             if len(e.args) > 1:
                 c = self.contracts.get(self.verifying)
                 t = c.locals.get(nm) if c is not None else None
